@@ -34,6 +34,22 @@ var sharedExprs = []string{
 	`{timeformat {time {4} cache} RFC3339 utc}`,
 	`{twice {2}}-{addk {3} {2}}`,
 	`{@join {@map {@split {1} ","} "{twice {0}}"} ","}-{! [2]+[3]}`,
+	// every helper family once, with dynamic arguments: stages that keep a
+	// scratch buffer, cache or pool inside the compiled expression are shared
+	// by all workers
+	`{bucket {3} 7}|{bucketrange {3} 1000}|{bucketrange -{3} 50}|{expbucket {3}}|{clamp {2} 2 6}`,
+	`{sumi {2} {3}}|{subi {3} {2}}|{multi {2} {3} 3}|{divi {3} 7}|{modi {3} 7}|{maxi {2} {3}}|{mini {2} {3}}`,
+	`{sumf {2} 0.5}|{subf {3} 0.25}|{multf {2} 1.5}|{divf {3} 8}|{floor {divf {3} 8}}|{ceil {divf {3} 8}}|{round {divf {3} 7} 2}`,
+	`{log10 {sumi {3} 1}}|{log2 {sumi {3} 1}}|{ln {sumi {3} 1}}|{pow {2} 2}|{sqrt {3}}`,
+	`{eq {2} 3}|{neq {2} 3}|{lt {2} {3}}|{gt {2} {3}}|{lte {2} 4}|{gte {2} 4}|{not {eq {2} 3}}|{and {2} {3}}|{or "" {2}}`,
+	`{if {gt {3} 5000} big small}|{unless {gt {3} 5000} small}|{switch {eq {2} 1} one {eq {2} 2} two other}|{coalesce "" {2}}|{isint {2}}|{isnum {1}}`,
+	`{len {1}}|{like {1} 1}|{prefix {1} 1}|{suffix {1} 9}|{upper {4}}|{lower {4}}|{substr {4} 2 7}|{select {0} 1}|{format "%5s|%-5s" {2} {3}}|{tab {2} {3}}`,
+	`{csv {1} {2} {4}}|{hi {3}}|{hf {divf {3} 7}}|{percent {divf {2} 10}}|{bytesize {multi {3} 1000}}|{bytesizesi {multi {3} 1000}}|{downscale {multi {3} 1000}}`,
+	`{basename a/b/{3}.log}|{dirname a/{2}/c.log}|{extname x.{3}}`,
+	`{timeformat {time {4}} RFC1123Z America/New_York}|{timeattr {time {4}} yearweek}|{timeattr {time {4}} quarter}|{buckettime {4} hour}|{duration {2}h{2}m}|{durationformat {3}}`,
+	`{@len {@split {1} ","}}|{@in {2} {@ 1 3 5 7}}|{@select {@split {1} ","} 0}|{@join {@slice {@split {1} ","} -2} "/"}|{@join {@range {2}} ","}|{$ {2} {3}}`,
+	`{repeat = {2}}|{bar {2} 9 12}|{color red {2}}`,
+	`{.}|{#}|{@}|{src}:{line}`,
 }
 
 const funcsFile = "# helpers for the concurrency workload\ntwice {sumi {0} {0}}\naddk {sumi {0} \\\n  {1} 1}\n"
